@@ -281,7 +281,7 @@ func refTokens(s string) []string {
 	if s == "" {
 		return nil
 	}
-	s = strings.ToLower(nlp.NormalizeText(s))
+	s = strings.ToLower(nlp.NormalizeText(strings.ToLower(s))) // lower-case first, as the tool does since 065e7ba
 	var out []string
 	for _, w := range strings.FieldsFunc(s, func(r rune) bool { return !unicode.IsLetter(r) && !unicode.IsNumber(r) }) {
 		if len(w) < 2 || refStop[w] {
